@@ -572,6 +572,32 @@ func stress(args []string) error {
 	var wg sync.WaitGroup
 	start := make(chan struct{})
 	seed := vh.Seed()
+	// What every encoder returns for its first few objects, taken sequentially up front: in the "hot" part all
+	// goroutines keep encoding these SAME few values side by side (a memo of the last value, a shared scratch
+	// buffer ... would hand one goroutine another one's text).
+	const hotObjs = 3
+	expText := make([][]string, len(codecs))
+	expStr := make([][]string, len(codecs))
+	for ci, c := range codecs {
+		for i := 0; i < hotObjs && i < c.n; i++ {
+			b, err := c.marshal(i)
+			if err != nil {
+				return fmt.Errorf("%s of %v: %w", c.name, c.sample(i), err)
+			}
+			expText[ci] = append(expText[ci], string(b))
+			if c.str != nil {
+				expStr[ci] = append(expStr[ci], strings.Clone(c.str(i)))
+			} else {
+				expStr[ci] = append(expStr[ci], "")
+			}
+		}
+	}
+	type hotBad struct {
+		c         *codec
+		obj       int
+		got, want string
+	}
+	hot := make([][]hotBad, nG)
 	for g := 0; g < nG; g++ {
 		wg.Add(1)
 		go func(g int) {
@@ -587,6 +613,27 @@ func stress(args []string) error {
 				st.sess = append(st.sess, &session{c: c})
 			}
 			<-start
+			for i := 0; i < 3*iters; i++ { // hot: the same few values from every goroutine
+				ci := rng.IntN(len(codecs))
+				c := codecs[ci]
+				obj := rng.IntN(len(expText[ci]))
+				var got, want string
+				if c.str != nil && rng.IntN(2) == 0 {
+					got, want = c.str(obj), expStr[ci][obj]
+				} else {
+					b, err := c.marshal(obj)
+					if err != nil {
+						got = "error: " + err.Error()
+					} else {
+						got = string(b)
+					}
+					want = expText[ci][obj]
+				}
+				st.calls++
+				if got != want && len(hot[g]) < 3 {
+					hot[g] = append(hot[g], hotBad{c: c, obj: obj, got: strings.Clone(got), want: want})
+				}
+			}
 			for i := 0; i < iters; i++ {
 				s := st.sess[rng.IntN(3)] // mostly URLs ...
 				if rng.IntN(4) == 0 {
@@ -614,6 +661,13 @@ func stress(args []string) error {
 	wg.Wait()
 
 	total, retainedN := 0, 0
+	for g := range hot {
+		for _, h := range hot[g] {
+			res.Mismatch(fmt.Sprintf("%s under concurrency: the encoding of one value is another value's text", h.c.name),
+				fmt.Sprintf("goroutine %d encoded %v and got %+q, want %+q (other goroutines were encoding other values at the same time)", g, h.c.sample(h.obj), h.got, h.want),
+				map[string]any{"encoder": h.c.name, "got": h.got, "want": h.want})
+		}
+	}
 	for g := range states {
 		st := &states[g]
 		total += st.calls
